@@ -62,7 +62,7 @@ class Proj:
 
 def gen_project(rng, lim):
     p = Proj(rng)
-    dirs = ["", "src/", "src/gen/", "src/util/", "vendor/", "vendor/deep/", "tests/", "docs/", "a/b/c/", "docs/build/", "src/build/"]
+    dirs = ["", "src/", "src/gen/", "src/util/", "vendor/", "vendor/deep/", "tests/", "docs/", "a/b/c/", "docs/build/", "src/build/", "src2/", "tests-e2e/"]
     names = ["a.rs", "b.rs", "c.py", "d.go", "e.js", "notes.txt", "Makefile", "x.gen.rs", ".hidden.rs", "big.rs", "w.rs", "t_test.rs", "data.bin", "gen.rs"]
     n = rng.randint(4, 14)
     for _ in range(n):
@@ -572,6 +572,38 @@ def run(ctx):
                                  "baseline": baseline, "cli_exit": rc, "spec_exit": mexit, "only_cli": d1[:8], "only_spec": d2[:8], "stderr": err[:300]})
                 if len(ctx.cov["samples"]) < 3:
                     ctx.sample({"config": toml_of(cfg), "flags": {a: b for a, b in flags.items() if b}, "files": {f: list(v[:3]) for f, v in proj.files.items()}, "exit": rc, "results": cres[:6]})
+            # several scan roots at once (also roots whose names start with another root's name): every in-scope
+            # file below any of them is evaluated, and the exit code follows from those files alone
+            # (a root that an ignore file or a scanner exclude of its parent would skip is still scanned when it is
+            # named explicitly, as in git and ripgrep: such roots are left out here)
+            sc0 = [".git/**"] + cfg["scanner_exclude"]
+            tops = sorted({rel.split("/")[0] for rel in proj.files if "/" in rel})
+            tops = [t for t in tops if not gitignored(t, True, cfg["gitignore"])
+                    and not any(glob.m(q, t) or (q.endswith("/**") and glob.m(q[:-3], t)) for q in sc0)]
+            f0 = {"max_lines": None, "ext": None, "exclude": [], "warn_only": False, "wae": False, "no_gitignore": False, "count_comments": False,
+                  "count_blank": False, "baseline": False, "warn_threshold": None, "fail_fast": False}
+            if cfg["structure"] is None and len(tops) >= 2 and not config_error(cfg, f0) and rng.random() < 0.5:
+                roots = rng.sample(tops, rng.randint(2, min(3, len(tops))))
+                use_include = rng.random() < 0.3
+                facts0, _ = oracle(proj, cfg, f0, glob, None)
+                sub = [f for f in facts0 if any(f["path"][2:].startswith(r + "/") for r in roots)]
+                oo, _, _ = run_lines(model, [model_line(sub, [], f0, cfg, None)])
+                if not oo:
+                    raise CheckBroken("pipeline driver died (multi-root line)")
+                mexit, mres = parse_model(oo[0])
+                targets = [x for r in roots for x in ("--include", r)] if use_include else roots
+                rc, out, err = sb.run(exe, ["check", *targets, "--format", "json", "--color", "never", "--no-sloc-cache"], env={"RAYON_NUM_THREADS": "2"})
+                evals += 1
+                hist["multi_root"] = hist.get("multi_root", 0) + 1
+                strip = lambda rs: sorted((p[2:] if p.startswith("./") else p, k, st) for (p, k, st) in rs)
+                try:
+                    cres = strip(parse_cli(out))
+                except Exception:
+                    cres = None
+                if cres != strip(mres) or rc != mexit:
+                    mism.append({"config": toml_of(cfg), "gitignore": cfg["gitignore"], "roots": targets, "files": {f: list(v) for f, v in proj.files.items()},
+                                 "cli_exit": rc, "spec_exit": mexit, "only_cli": [x for x in (cres or []) if x not in strip(mres)][:8],
+                                 "only_spec": [x for x in strip(mres) if x not in (cres or [])][:8], "stderr": err[:300]})
     ctx.cov["evaluations"] = evals
     ctx.cov["distinct_nontrivial"] = len(nontrivial)
     ctx.cov["traces_validated_against_impl"] = evals - len(mism)
